@@ -30,6 +30,19 @@ def classify(value, minv, exp, min_bits, blind, buflen, maxsz):
     if buflen < maxsz: return None
     return "ok"
 
+def model_rings(value, minv, exp, min_bits):
+    """ring count chosen by secp256k1_range_proveparams (transcribed; used only to pin known finding F5 to its exact input class)"""
+    U = 2**64 - 1
+    if minv == U: exp = -1
+    if exp < 0: return 1
+    def clz(x): return 64 - x.bit_length()
+    mb = min(min_bits, clz(minv) if minv else 64)
+    if mb > 61 or value > 2**63 - 1: exp = 0
+    v = value - minv; v2 = (U >> (64 - mb)) if mb else 0; i = 0
+    while i < exp and v2 <= U // 10: v //= 10; v2 *= 10; i += 1
+    mant = max(v.bit_length() if v else 1, mb)
+    return (mant + 1) >> 1
+
 def gen_pair(ctx, config, rng):
     k = rng.randrange(3)
     if k == 0:
@@ -76,7 +89,11 @@ def one(ctx, config, rng, alt, value, minv, exp, min_bits, blind, msglen, extral
     elif kind == "msg_too_long":
         ctx.check(r.ret == 0, "rangeproof_sign:message_beyond_capacity_accepted", det, config)
     elif kind == "ok":
-        ctx.check(r.ret == 1, "rangeproof_sign:documented_valid_refused", det, config)
+        # known finding F5: the header says a zero blinding factor is fine with min_bits >= 3, but min_bits is silently clamped to
+        # clz(min_value), so for min_value >= 2^61 and value - min_value < 4 (scaled) the proof has a single ring whose secret is the
+        # zero blinding factor, and creation is refused.  Only that input class gets the finding's key.
+        f5 = blind == 0 and min_bits >= 3 and minv >= 2**61 and model_rings(value, minv, exp, min_bits) == 1
+        ctx.check(r.ret == 1, "rangeproof_sign:documented_valid_refused" + (":zero_blind_min_bits>=3_clamped_to_one_ring_by_min_value>=2^61" if f5 else ""), det, config)
     else:
         ctx.count("unmodelled_success_set")
     if r.ret != 1: return
@@ -140,6 +157,15 @@ def run_config(ctx, config):
     for value, minv, exp, min_bits in ctx.mine(take):
         if min_bits > 16 and ctx.quick and rng.random() < 0.5: min_bits = rng.choice((0, 1, 3))     # keep quick cheap: big mantissas are 5 kB proofs
         one(ctx, config, rng, alt, value, minv, exp, min_bits, rng.choice((1, n - 1, rng.randrange(1, n))), 0, rng.choice((0, 0, 32)), rng.choice((0, 0, 1, 2, 3, 4)), "edge")
+    # zero blinding factor around the min_bits clamp (min_value just below / at / above 2^61, value - min_value around 4): the witness
+    # of known finding F5 and its neighbours that must succeed
+    zb = [(2960541175011637879, 2960541175011637878, 0, 4)]
+    for base in (2**61 - 1, 2**61, 2**61 + 5, 2**62, 2**62 + 12345):
+        for dv in (0, 1, 3, 4, 5, 100):
+            for mb in (3, 4, 8):
+                zb.append((base + dv, base, rng2.choice((0, 0, 1, 3)), mb))
+    for value, minv, exp, min_bits in ctx.mine(zb if not ctx.quick else zb[:1] + rng2.sample(zb[1:], 30)):
+        one(ctx, config, rng, alt, value, minv, exp, min_bits, 0, 0, rng.choice((0, 32)), rng.choice((0, 1)), "zero_blind_clamp")
     # random fill with messages, blinds, buffers
     for it in range(ctx.n(640, 20000)):
         value = pools.u64(rng, 0.5) if it % 3 else rng.randrange(2**20)
